@@ -136,6 +136,8 @@ def _role_type(role, ty):
         return ty.get('s') == 'u8'
     if role == 'crc':
         return ty.get('s') == 'u32'
+    if role == 'label':
+        return ty.get('s') == 'label::Label'
     if role == 'extensions':
         return 'Extension' in ty.get('s', '')
     return False
@@ -424,6 +426,8 @@ def decap_cfg(facts, extra=None):
         'kslots': 2,
         'trait_result_hooks': {TRAIT_MEM + 'take_frag': after_take, TRAIT_MEM + 'new_frag': after_new_frag},
         'call_hooks': {TRAIT_MEM + 'save_frag': before_save},
+        'ret_hooks': header_ghosts(facts),
+        'max_worlds': 384,
     }
     if extra:
         for k, v in extra.items():
@@ -432,6 +436,77 @@ def decap_cfg(facts, extra=None):
             else:
                 cfg[k] = v
     return cfg
+
+
+def clru_key(facts):
+    """the private method of the Encapsulator that decides the label to send: (&mut self, Label) -> Label.  Found by its
+    signature, so that renaming it does not lose the anchor; falls back to the historical name."""
+    c = getattr(facts, '_clru', None)
+    if c is None:
+        cands = []
+        for k, bs in facts.by_key.items():
+            for b in bs:
+                if b.def_kind == 'AssocFn' and not b.derived and b.arg_count == 2 and 'Encapsulator' in (b.impl_self or {}).get('s', '') \
+                        and b.local_ty(2).get('s') == 'label::Label' and b.local_ty(0).get('s') == 'label::Label' \
+                        and b.local_ty(1).get('k') == 'ref' and b.local_ty(1).get('mut'):
+                    cands.append(k)
+        c = cands[0] if len(cands) == 1 else ENC + 'check_label_re_use'
+        facts._clru = c
+    return c
+
+
+def walker_key(facts):
+    """the free function that walks the extension-header chain: the one that asks the MandatoryHeaderExtensionManager"""
+    c = getattr(facts, '_walker', None)
+    if c is None:
+        cands = []
+        for k, bs in facts.by_key.items():
+            for b in bs:
+                if b.def_kind != 'Fn' or b.derived:
+                    continue
+                for blk in b.blocks:
+                    t = blk['term']
+                    if t['t'] == 'call' and 'fn' in t['func'] and t['func']['fn'].get('trait', '').endswith('MandatoryHeaderExtensionManager'):
+                        cands.append(k)
+                        break
+        cands = sorted(set(cands))
+        c = cands[0] if len(cands) == 1 else 'gse_decap::iterate_over_extension_header'
+        facts._walker = c
+    return c
+
+
+def kind_of(W):
+    """decoded packet kind of world W: 0 complete, 1 first, 2 intermediate, 3 end (None: not a single kind)"""
+    k = W.mem.get(('G', 'kind'))
+    if k is not None and k[0] == 'enum' and len(k[1]) == 1:
+        return k[1][0][0]
+    return None
+
+
+KIND_FN = {0: 'decap_complete', 1: 'decap_first', 2: 'decap_intermediate', 3: 'decap_end'}       # names used in messages only
+RGH = 'gse_decap::read_gse_header'
+KIND_NO = {'CompletePkt': 0, 'FirstFragPkt': 1, 'IntermediateFragPkt': 2, 'EndFragPkt': 3}
+
+
+def header_ghosts(facts):
+    """ghosts `kind` (0 complete, 1 first, 2 intermediate, 3 end) and, for start / complete packets, `lt` (the LabelType value):
+    what the public decoder read_gse_header answered for this packet.  The decoder builds each (kind, label type) pair in its
+    own arm, so the ghosts are single variants and keep the worlds of different packet kinds apart.  (Earlier versions set them
+    when the private helpers decap_complete / decap_first / ... were called: that tied the rules to the helpers' names.)"""
+    def hook(I, w, frame, site, args, rv):
+        if rv[0] != 'enum' or len(rv[1]) != 1 or rv[1][0][0] != 1:
+            return
+        tup = rv[1][0][1][0]
+        if tup[0] != 'agg' or len(tup[1]) != 3:
+            return
+        k, l = tup[1][1], tup[1][2]
+        if k[0] == 'enum' and len(k[1]) == 1:
+            kn = KIND_NO.get(facts.variant_name('pkt_type::PktType', k[1][0][0]))
+            if kn is not None:
+                w.mem[('G', 'kind')] = ('enum', ((kn, ()),))
+                if kn in (0, 1):
+                    w.mem[('G', 'lt')] = l
+    return {RGH: hook}
 
 
 def mem_invariant(facts):
@@ -492,7 +567,7 @@ def encap_cfg(facts, out_buffer_root=None, extra=None):
     def after_crc(I, w, frame, site, args, rv):
         w.mem[('G', 'crc_val')] = rv
 
-    cfg = {'kslots': int(os.environ.get('VERIF_KSLOTS', '2')), 'diff_templates': os.environ.get('VERIF_DT', '0') == '1', 'call_hooks': {GEN_HDR: on_header}, 'write_hook': on_write, '_holder': holder,
+    cfg = {'kslots': int(os.environ.get('VERIF_KSLOTS', '6')), 'merge': os.environ.get('VERIF_MERGE', 'global'), 'diff_templates': os.environ.get('VERIF_DT', '0') == '1', 'call_hooks': {GEN_HDR: on_header}, 'write_hook': on_write, '_holder': holder,
            'ret_hooks': {GEN_HDR: after_header, 'crc::CrcCalculator::calculate_crc32': after_crc}}
     if extra:
         for k, v in extra.items():
